@@ -1,5 +1,6 @@
 -- Root of the library: every property file (and through them the model, lemmas and generated tables).
 import BertE.Props.C01
+import BertE.Props.C02
 import BertE.Props.C03
 import BertE.Props.C04
 import BertE.Props.C05
@@ -10,5 +11,6 @@ import BertE.Props.C09
 import BertE.Props.C11
 import BertE.Props.C13
 import BertE.Props.C14
+import BertE.Props.C16
 import BertE.Props.C17
 import BertE.Props.C18
